@@ -1858,3 +1858,9 @@ def _module_buffers_dict(self):
 
 if not hasattr(_NN.Module, "_buffers"):
     _NN.Module._buffers = property(_module_buffers_dict)
+
+
+# extension (C16/C17 module wrappers): container classes that deepali/losses/base.py imports by name
+for _n in ("ModuleDict", "ModuleList"):
+    if not hasattr(_NN, _n):
+        setattr(_NN, _n, type(_n, (_NN.Module,), {}))
